@@ -170,9 +170,9 @@ def r3(ctx, prog):
         for q in fails:
             w = w or cfg.must_pass([q], cfg.exit_points(), rl.store_field_const(h, "initially_committed", 0))
         ctx.check(R, w is None, h.where(), "failed commit: memid->initially_committed = false on every path", key="C07.R3:mi_arena_try_alloc_at:flag", witness=w)
-        claims = [c for c in h.calls("_mi_bitmap_claim_across") if h.mentions_field(rl.arg(h, c, 0), "blocks_committed")]
+        claims = [c for c in h.calls("_mi_bitmap_claim_across") if rl.mentions_field_x(h, rl.arg(h, c, 0), "blocks_committed")]
         def undo(e):
-            if not rl.is_call(h, e, "_mi_bitmap_unclaim_across") or not h.mentions_field(h.nodes[e]["args"][0], "blocks_committed"):
+            if not rl.is_call(h, e, "_mi_bitmap_unclaim_across") or not rl.mentions_field_x(h, h.nodes[e]["args"][0], "blocks_committed"):
                 return False
             return any(h.text(h.nodes[e]["args"][2]) == h.text(h.nodes[c]["args"][2]) and h.text(h.nodes[e]["args"][3]) == h.text(h.nodes[c]["args"][3]) for c in claims)
         w = None
